@@ -129,8 +129,17 @@ def _compare(sy, hs, as_, pre, tag=""):
 
     opts = {"tol": TAU, "replay_tol": 2e-4, "nocross": True, "need_replay": True}
     out = [("same partons", sorted(hs), sorted(as_))] if (hs or as_) else []
+    done = {}
     for pid in sorted(set(hs) & set(as_)):
         h, a = hs[pid], as_[pid]
+        if not sy.is_numeric:
+            # rows that are the same symbolic expressions on both sides (e.g. the singlet weight of
+            # every light quark) are one obligation: the repeated row is identified, not re-proved
+            key = repr([(k, repr(h[k]), repr(a[k])) for k in ("reg", "sing", "loc")])
+            if key in done:
+                out.append((f"pid={pid}/same expressions as pid={done[key]} (decided there)", True, True))
+                continue
+            done[key] = pid
         if sy.is_numeric:
             z = sy.z
             out.append((f"pid={pid}/reg+sing", h["reg"](z) + h["sing"](z), a["reg"](z) + a["sing"](z), opts))
@@ -352,6 +361,9 @@ def sec_intrinsic(rep, tier):
             for ihq in ihqs:
                 for order in (0, 1):
                     items.append((process, kind, ihq, ihq - 1, order, 1))
+    if rep.extra.get("_gather") is not None:
+        rep.extra["_gather"] += [("intrinsic", it) for it in items]
+        return len(items)
     parallel(rep, items, _intrinsic_worker)
     return len(items)
 
@@ -369,6 +381,9 @@ def sec_heavy(rep, tier):
             for ihq in ihqs:
                 for order in orders:
                     items.append((process, kind, ihq, ihq - 1, order, max(order, 1)))
+    if rep.extra.get("_gather") is not None:
+        rep.extra["_gather"] += [("heavy", it) for it in items]
+        return len(items)
     parallel(rep, items, _heavy_worker)
     return len(items)
 
@@ -383,6 +398,93 @@ def _heavy_worker(sub, item):
     _soft_standin(sub, f"C08/heavy/{process}/{kind}/ihq={ihq}/order={order}", case, sy)
     sub.extra["limit_selfchecks"] = sub.extra.get("limit_selfchecks", 0) + SELFCHECKS[0]
     SELFCHECKS[0] = 0
+
+
+def _lepro_grid_bound():
+    """largest ln(xi) covered by any LeProHQ bulk grid: beyond it LeProHQ evaluates its exact
+    high-virtuality expressions (cg1hv / cq1hv) instead of interpolating tables"""
+    import glob
+    import os
+
+    import LeProHQ
+
+    mx = 0.0
+    for f in glob.glob(os.path.join(os.path.dirname(LeProHQ.__file__), "data", "c?1", "*bulk.dat")):
+        with open(f) as fh:
+            first = fh.readline().split()
+        mx = max(mx, float(first[-1]))
+    return mx
+
+
+def _binds_nnlo(sy):
+    """as _binds, plus LeProHQ's own Nielsen / dilogarithm routines mapped to the same atoms as
+    yadism's (A-special: both implement S_{n,p} and Li2)"""
+    import LeProHQ
+    import LeProHQ.bmsn
+    import LeProHQ.raw.cgBar1 as rb
+    import LeProHQ.raw.cqBarF1 as rq
+    import LeProHQ.utils
+    from pvc.sym import fn
+
+    b = _binds(sy)
+    if sy.is_numeric:
+        return b
+    nst = [v for (_m, n, v) in b if n == "nielsen"][0]
+    li2s = lambda x: fn("li2", x) if isinstance(x, R) else LeProHQ.utils.Li2(x)  # noqa: E731
+    return b + [(LeProHQ.bmsn, "nielsen", nst), (rb, "Li2", li2s), (rq, "Li2", li2s)]
+
+
+def nnlo_case(kind, ihq, nf, channel):
+    """O(a_s^2) NC gluon / singlet beyond LeProHQ's interpolation grids (Q2/m2 > exp(11.52) = 1e5):
+    the massive side is FHprefactor/z (4 pi)^2 [c1hv + cBar1 log(xi)] with closed-form pieces, executed
+    from LeProHQ's source; the asymptotic side is yadism's own asy/raw_nc.py formulas."""
+    import math
+
+    K = math.exp(_lepro_grid_bound() + 0.1)
+
+    def pre(sy):
+        return [sy.x > 0, sy.x < 1, sy.Q2 > 0, sy.z > 0, sy.z < 1, sy.eps > 0, sy.eps * K * 2 < 1, (1 - sy.x) > 4 * sy.eps * sy.x, (1 - sy.z) > 12 * sy.eps * sy.z]
+
+    def case(sy):
+        from yadism.coefficient_functions import heavy
+        from yadism.coefficient_functions.asy import kernels as asyk
+
+        _set_mass(sy)
+        cfg = _cfg(sy, "NC", 2)
+        esf = H.FakeESF(sy.x, sy.Q2, H.obs_name(kind, HQ_NAME[ihq]), cfg)
+        with rebind(*_binds_nnlo(sy)):
+            hk = heavy.kernels.generate(esf, nf, ihq)
+            ak = asyk.generate_heavy_asy(esf, nf, 2, ihq)
+            hs = _kernel_sum(sy, hk, 2)
+            as_ = _kernel_sum(sy, ak, 2)
+            keep = (lambda p: p == 21) if channel == "gluon" else (lambda p: p != 21)
+            hs = {p: v for p, v in hs.items() if keep(p)}
+            as_ = {p: v for p, v in as_.items() if keep(p)}
+            return _compare(sy, hs, as_, pre(sy), f"heavy-nnlo/{kind}/ihq={ihq}/{channel}")
+
+    return case, pre
+
+
+def _nnlo_worker(sub, item):
+    kind, ihq, nf, channel = item
+    sy = H.Sy(extra="z eps")
+    sub.cases += 1
+    del SOFT[:]
+    case, pre = nnlo_case(*item)
+    sub.check(f"C08/heavy/NC/{kind}/ihq={ihq}/order=2/{channel}[beyond the LeProHQ grids]", case, sy, pre(sy), tol=TAU, timeout_ms=20000)
+    sub.extra["limit_selfchecks"] = sub.extra.get("limit_selfchecks", 0) + SELFCHECKS[0]
+    SELFCHECKS[0] = 0
+
+
+def sec_heavy_nnlo(rep, tier):
+    items = [(kind, 4, 3, ch) for kind in ("F2", "FL") for ch in ("gluon", "singlet")]
+    if tier == "thorough":
+        items += [(kind, 5, 4, ch) for kind in ("F2", "FL") for ch in ("gluon", "singlet")]
+    if rep.extra.get("_gather") is not None:
+        rep.extra["_gather"] += [("nnlo", it) for it in items]
+        return len(items)
+    parallel(rep, items, _nnlo_worker, chunk=1)
+    return len(items)
 
 
 def sec_missing(rep, tier):
@@ -475,12 +577,23 @@ def sec_selfcheck(rep):
         rep.add(Ob(f"C08/selfcheck/{name}", "canary", PROVED if ok else "error", "limit", 0, detail))
 
 
+def _any_worker(sub, tagged):
+    tag, item = tagged
+    {"heavy": _heavy_worker, "intrinsic": _intrinsic_worker, "nnlo": _nnlo_worker}[tag](sub, item)
+
+
 def run(rep, tier, seed, only=None):
-    secs = {"heavy": lambda: sec_heavy(rep, tier), "intrinsic": lambda: sec_intrinsic(rep, tier), "missing": lambda: sec_missing(rep, tier), "selfcheck": lambda: sec_selfcheck(rep)}
+    secs = {"heavy": lambda: sec_heavy(rep, tier), "intrinsic": lambda: sec_intrinsic(rep, tier), "nnlo": lambda: sec_heavy_nnlo(rep, tier), "missing": lambda: sec_missing(rep, tier), "selfcheck": lambda: sec_selfcheck(rep)}
+    # the long O(a_s^2) items run first and share the pool with the short ones
+    rep.extra["_gather"] = [] if rep.replay_target is None else None
     for name, f in secs.items():
         if only and only not in name:
             continue
         rep.add(guarded(f"C08/{name}", lambda f=f: (f(), [])[1]))
+    gathered = rep.extra.pop("_gather", None)
+    if gathered:
+        gathered.sort(key=lambda t: 0 if t[0] == "nnlo" else 1)
+        rep.add(guarded("C08/pool", lambda: (parallel(rep, gathered, _any_worker, chunk=1), [])[1]))
     rep.assume(
         "L-lim (textbook): a polynomial in log(eps) and in atoms analytic (Li2: Hoelder) at eps = 0 over a denominator that does not vanish there differs from its value 'at eps = 0 with log(eps) kept' by O(eps log^k eps)",
         "pointwise convergence of reg+sing and loc in z plus the domination of the plus-distribution integrand by its massless limit gives convergence of the convolution for any PDF (dominated convergence; not machine-checked)",
